@@ -150,6 +150,12 @@ var enumFamilies = []enumFamily{
 				x.FromBytes(le32(v))
 				return x.Name
 			}},
+			{"key.KeyStrength.FromBytes.Name.reused", freeText, func(v uint64) string {
+				var x key.KeyStrength
+				x.FromBytes(le32(v ^ 1)) // the object is decoded into twice; the second decode must win
+				x.FromBytes(le32(v))
+				return x.Name
+			}},
 		}},
 	{ID: "key.KeyUsage", Dir: dirKey, Prefix: "KeyUsage_", Width: 8, Bound: []string{"KeyUsage.String"},
 		Lookups: []lookup{
@@ -208,6 +214,11 @@ var flagFamilies = []flagFamily{
 		Bound: []string{"CustomKeyInformationFlags.FromBytes"},
 		Dec: []decomposer{{"ckiflags.FromBytes", nameSep, func(w uint64) string {
 			var x key.CustomKeyInformationFlags
+			x.FromBytes(byte(w))
+			return strings.Join(x.Name, nameSep)
+		}}, {"ckiflags.FromBytes.reused", nameSep, func(w uint64) string {
+			var x key.CustomKeyInformationFlags
+			x.FromBytes(byte(^w)) // the object is decoded into twice; the second decode must win
 			x.FromBytes(byte(w))
 			return strings.Join(x.Name, nameSep)
 		}}}},
